@@ -1,3 +1,4 @@
+// g++ -std=c++17 -O1 -I. -I/usr/include/eigen3 demo.cpp -o demo
 // reproducer: adapter/eigen.hpp accepts a COLUMN-major Eigen::SparseMatrix (Eigen's default storage order) and silently reads a
 // different operator: row_begin(A, i) is InnerIterator(A, i), which walks COLUMN i of a column-major matrix and reports col() == i
 #include <iostream>
